@@ -419,20 +419,21 @@ def model_check(ctx):
 
 
 def gen_cases(ctx, plan):
-    """TLC enumerates the histories; plan: [(routine, depth, maxsaves, params-list)]"""
+    """TLC enumerates the histories; plan: [(routine, depth, maxsaves, params-list[, tag])]"""
     cases = []
+    plan = [(it + (it[0],))[:5] for it in plan]
 
     def one(item):
-        routine, depth, maxsaves, _ = item
-        cfg = ctx.path(f"gen_{routine}.cfg")
+        routine, depth, maxsaves, _, tag = item
+        cfg = ctx.path(f"gen_{tag}.cfg")
         lib.write_cfg(cfg, dict(FS_CONSTS, Routine=f'"{routine}"', MaxSaves=maxsaves, Strict="FALSE", D=depth),
                       "GInit", "GNext", invariants=["EmitCase"])
-        out = ctx.path(f"cases_{routine}.ndjson")
+        out = ctx.path(f"cases_{tag}.ndjson")
         r = lib.tlc(ctx, MODULE_MC, cfg, workers=1, timeout=600, tagged_out={"PROGRAM": out}, heap="2g")
         return item, out, r
 
     with ThreadPoolExecutor(max_workers=lib.NCPU) as ex:
-        for (routine, depth, maxsaves, params), out, r in ex.map(one, plan):
+        for (routine, depth, maxsaves, params, tag), out, r in ex.map(one, plan):
             ctx.cov["states"] += r["distinct"]
             ctx.cov["transitions"] += r["generated"]
             progs = sorted(set(lib.read_lines(out)))
@@ -441,8 +442,8 @@ def gen_cases(ctx, plan):
                 p = json.loads(line)
                 for par in params:
                     k += 1
-                    cases.append(dict(p, id=f"{routine}-{k:05d}", **par))
-            ctx.stage("cases", routine=routine, depth=depth, max_saves=maxsaves, histories=len(progs), cases=k, wall_s=r["wall_s"])
+                    cases.append(dict(p, id=f"{tag}-{k:05d}", **par))
+            ctx.stage("cases", routine=routine, tag=tag, depth=depth, max_saves=maxsaves, params=params, histories=len(progs), cases=k, wall_s=r["wall_s"])
     return cases
 
 
@@ -559,7 +560,7 @@ def judge_trace(ctx, trace, source, kd):
     lib.write_cfg(cfg, {"KnownDeviations": lib.tla_set(kd)}, "TInit", "TNext", invariants=["Done"])
     v = lib.judge(ctx, MODULE_J, cfg, trace, max_events=max(2000, sum(1 for _ in open(trace)) // (2 * lib.NCPU)))
     ctx.stage("judge", source=source, events=v["events"], violations=len(v["violations"]),
-              deviations={f: v.get("dev_" + f, 0) for f in ("F06a", "F06b")},
+              deviations={f: v.get("dev_" + f, 0) for f in ("F06a", "F06b", "F06d")},
               rec_old=v.get("rec_old", 0), rec_new=v.get("rec_new", 0), rec_same=v.get("rec_same", 0),
               strict_nonconforming=v.get("strict_nonconforming", 0), wall_s=v["wall_s"])
     return v
@@ -628,7 +629,7 @@ def compare_shapes(ctx, shapes, cases, logs):
 
 # --------------------------------------------------------------------------- classification / replay
 def classify(ctx, v, trace, source, max_reports=5):
-    for fid in ("F06a", "F06b"):
+    for fid in ("F06a", "F06b", "F06d"):
         k = v.get("dev_" + fid, 0)
         if k:
             lib.note_known(ctx, fid, k)
@@ -726,7 +727,7 @@ def replay(ctx, kd):
     for ln, fid in v["deviations"][:10]:
         print(f"DEVIATION {fid} " + lines[ln - 1])
     print(json.dumps(v))
-    for fid in ("F06a", "F06b"):
+    for fid in ("F06a", "F06b", "F06d"):
         if v.get("dev_" + fid, 0):
             f = next((x for x in ctx.known.get("findings", []) if x["id"] == fid), None)
             print(f"KNOWN-FINDING: property={PROP} {fid}: {f['what'] if f else fid} (observed {v['dev_' + fid]}x)")
@@ -830,7 +831,8 @@ def run_(ctx):
         plan = [("lru", 4, 3, [{"cap": 4}]),
                 ("index", 3, 3, [{}]),
                 ("res", 4, 3, [{"nb": 1}, {"nb": 2}]),
-                ("disk", 3, 3, [{"subdirs": True}, {"subdirs": False}]),
+                ("res", 3, 3, [{"nb": 1, "direct": True}], "resdirect"),
+                ("disk", 3, 3, [{"subdirs": s_, "bg": b_} for s_ in (True, False) for b_ in (False, True)]),
                 ("journal", 4, 3, [{}])]
         nstrict = 2
     else:
@@ -839,8 +841,9 @@ def run_(ctx):
         plan = [("lru", 5, 3, [{"cap": 4}, {"cap": 1}, {"cap": 60}]),
                 ("index", 4, 3, [{}]),
                 ("res", 5, 3, [{"nb": 1}, {"nb": 2}, {"nb": 3}]),
-                ("disk", 4, 3, [{"subdirs": True}, {"subdirs": False}]),
-                ("journal", 6, 3, [{}])]
+                ("res", 4, 3, [{"nb": 2, "direct": True}], "resdirect"),
+                ("disk", 4, 3, [{"subdirs": s_, "bg": b_} for s_ in (True, False) for b_ in (False, True)]),
+                ("journal", 5, 3, [{}])]
         nstrict = 6
     shapes = model_check(ctx)
     cases = gen_cases(ctx, plan)
